@@ -55,7 +55,9 @@ META = dict(
                'datetime kinds, hostile strings, references nested to depth '
                '3; hosts incl. IPv6/ports/zone ids/userinfo; 1-4 level '
                'namespaces) and of arbitrary, near-miss and mutated URI '
-               'text. Held-on-K-executions evidence, not a proof.',
+               'text; after a round trip the parsed path is changed in place '
+               'and the same text parsed again (results must be independent). '
+               'Held-on-K-executions evidence, not a proof.',
     level_note='Trusted: the loose fingerprint in this module, vf/equiv.py '
                'for equivalents; the tag "reads as datetime/URI" is decided '
                'with pywbem\'s own CIMDateTime()/from_wbem_uri() on the raw '
